@@ -5,10 +5,11 @@
 import GoDebian.Drv.Version
 import GoDebian.Drv.Dependency
 import GoDebian.Drv.Deb822
+import GoDebian.Drv.Codec
 
 open GoDebian GoDebian.Drv
 
-def handlers : List Handler := [versionHandler, dependencyHandler, deb822Handler]
+def handlers : List Handler := [versionHandler, dependencyHandler, deb822Handler, codecHandler]
 
 def dispatch (line : String) : String :=
   match (line.splitOn " ").filter (· ≠ "") with
